@@ -152,7 +152,7 @@ def handle (j : Json) : Json :=
     let excl := excl0 ++ (if nil19 then ["NilAtCycle"] else [])
     let br := uniq (σ.trace ++ typeBranches Δ all t ++ Δ.flatMap (fun d => typeBranches Δ all (.struct d.2)) ++
       (if all then ["useAll"] else []) ++ (if isPtr t then ["ptr.root"] else []) ++
-      (if opts.length > 1 then ["comp.multi"] else []) ++ (if !σ.comps.isEmpty then ["comp.export"] else []) ++ excl.map ("excl." ++ ·))
+      (if opts.length > 1 then ["comp.multi"] else []) ++ (if !σ.comps.isEmpty then ["comp.export"] else []) ++ (if σ.anon then ["cycle.anon"] else []) ++ excl.map ("excl." ++ ·))
     jobj [("model", jobj [("outcome", "ok"), ("schema", jOfSch s), ("enc", jOfJ enc), ("options", Json.arr optJ.toArray)]),
           ("spec", jobj [("inDomain", Json.bool (inDom && (match enc with | .null => false | _ => true))), ("accept", Json.bool true), ("resolves", Json.bool true)]),
           ("excl", jstrs excl), ("branches", jstrs br)]
